@@ -26,7 +26,9 @@ def jump_stmt(r, limit_ns):
     k = r.below(7)
     v = [0, 1, 999, 1000, 999999999 // mul + 1, r.below(10 ** 6), r.below(min(lim, max(1, limit_ns // mul)))][k]
     v = min(v, lim, max(0, limit_ns // mul))
-    return '%s(%d);' % (name, v), v * mul
+    # the magnitude in any spelling of the literal (decimal, zero-padded, hex in either case)
+    lit = r.choice(['%d', '%d', '0x%x', '0x%X', '0x%08X', '000%d', '0x000%x']) % v
+    return '%s(%s);' % (name, lit), v * mul
 
 
 JN = [0]
